@@ -225,9 +225,7 @@ func monitorSuppressed(g *groundTruth, attempts []fAttempt) *violation {
 	const eps = 5 * time.Millisecond
 	for _, at := range attempts {
 		for _, x := range at.Alerts {
-			if !x.Firing {
-				continue
-			}
+			// listed as firing or as resolved: a suppressed alert is withheld either way
 			if s := g.silenced(x.Name); s.contains(at.Tick) && s.contains(at.Tick-eps) {
 				return &violation{"silenced-alert-notified", fmt.Sprintf("%s (flush tick %v) lists %s, which is matched by an active silence during %v", at.String(), at.Tick, x.Name, s)}
 			}
